@@ -82,7 +82,7 @@ func c07ConcRun(c c07ConcCase, v *vlib.Verdict) {
 }
 
 func TestVerifC07ConcurrentAdmission(t *testing.T) {
-	vlib.Drive(t, vlib.Spec[c07ConcCase]{ID: "C07", Quick: 400, Run: c07ConcRun, Gen: func(t *rapid.T) c07ConcCase {
+	vlib.Drive(t, vlib.Spec[c07ConcCase]{ID: c07eID(), Quick: 400, Run: c07ConcRun, Gen: func(t *rapid.T) c07ConcCase {
 		return c07ConcCase{
 			Goroutines: rapid.IntRange(2, 6).Draw(t, "goroutines"),
 			Grants:     rapid.IntRange(1, 3).Draw(t, "grants"),
